@@ -428,13 +428,25 @@ func TestVerifyAcceptanceVsLibrary(t *testing.T) {
 	}
 	// Pick signatures whose r and s have different DER shapes.
 	var sigs [][2]*big.Int
-	for len(sigs) < 6 {
-		k := randScalar(r)
-		rr, ss, ok := SignWithK(d, k, e[:])
+	// One signature per DER shape: top bit of r / s clear or set, and a short r.
+	seen := map[string]bool{}
+	want := 5
+	if testing.Short() {
+		want = 2
+	}
+	for len(sigs) < want {
+		rr, ss, ok := SignWithK(d, randScalar(r), e[:])
 		if !ok {
 			continue
 		}
-		sigs = append(sigs, [2]*big.Int{rr, ss})
+		shape := fmt.Sprint(len(derInt(rr)), len(derInt(ss)))
+		if len(seen) == 4 && len(derInt(rr)) >= 34 {
+			continue // still looking for r < 2^247
+		}
+		if !seen[shape] {
+			seen[shape] = true
+			sigs = append(sigs, [2]*big.Int{rr, ss})
+		}
 	}
 	seq := func(parts ...[]byte) []byte { return derWrap(0x30, bytes.Join(parts, nil)) }
 	rawInt := func(c []byte) []byte { return derWrap(0x02, c) }
@@ -575,6 +587,18 @@ func (l layout) modelDecrypt(d *big.Int, ct []byte) ([]byte, bool) {
 
 var msgLens = []int{1, 2, 15, 16, 19, 31, 32, 33, 55, 56, 63, 64, 65, 100, 127, 128, 129, 200, 255, 256, 257, 300, 1000}
 
+// countReader counts Read calls, i.e. candidate scalars drawn by the library.
+type countReader struct {
+	r     interface{ Read([]byte) (int, error) }
+	reads [][]byte
+}
+
+func (c *countReader) Read(p []byte) (int, error) {
+	n, err := c.r.Read(p)
+	c.reads = append(c.reads, append([]byte{}, p[:n]...))
+	return n, err
+}
+
 func TestLibraryEncryptModelDecrypt(t *testing.T) {
 	r := rng(9)
 	for _, d := range testKeys(r)[2:6] {
@@ -584,19 +608,25 @@ func TestLibraryEncryptModelDecrypt(t *testing.T) {
 			msg := randBytes(r, n)
 			for _, l := range layouts {
 				for _, random := range []interface{ Read([]byte) (int, error) }{r, constReader(0x11)} {
-					ct, err := sm2.Encrypt(random, &priv.PublicKey, msg, l.enc)
+					cr := &countReader{r: random}
+					ct, err := sm2.Encrypt(cr, &priv.PublicKey, msg, l.enc)
 					if err != nil {
 						t.Fatal(err)
 					}
 					got, ok := l.modelDecrypt(d, ct)
-					if !ok || !bytes.Equal(got, msg) {
-						t.Errorf("%s len %d: model cannot decrypt library ciphertext %x", l.name, n, ct)
+					if len(cr.reads) > 1 && !ok {
+						// see TestEncryptRetryAfterZeroMask
+						t.Logf("NEW DEFECT (c): %s len %d d=%x: library drew %d scalars %x and produced an undecryptable ciphertext %x",
+							l.name, n, d, len(cr.reads), cr.reads, ct)
+						continue
 					}
-					if _, isConst := random.(constReader); isConst {
-						c1, c2, c3, ok := EncryptWithK(pub, constScalar(0x11), msg)
-						if !ok || !bytes.Equal(l.marshal(c1, c2, c3[:]), ct) {
-							t.Errorf("%s len %d: ciphertext bytes differ for fixed k", l.name, n)
-						}
+					if !ok || !bytes.Equal(got, msg) {
+						t.Errorf("%s len %d d=%x reader=%T msg=%x: model cannot decrypt library ciphertext %x", l.name, n, d, random, msg, ct)
+					}
+					k := new(big.Int).SetBytes(cr.reads[len(cr.reads)-1])
+					c1, c2, c3, ok := EncryptWithK(pub, k, msg)
+					if !ok || !bytes.Equal(l.marshal(c1, c2, c3[:]), ct) {
+						t.Errorf("%s len %d: ciphertext bytes differ from model for k=%x", l.name, n, k)
 					}
 					// and the library must decrypt its own output
 					back, err := priv.Decrypt(nil, ct, l.dec)
@@ -605,6 +635,58 @@ func TestLibraryEncryptModelDecrypt(t *testing.T) {
 					}
 				}
 			}
+		}
+	}
+}
+
+// GB/T 32918.4 6.1 A5: if t is all zero, go back to A1 (fresh k, everything
+// recomputed from the ORIGINAL public key). The library's encryptSM2EC computes
+// Q.ScalarMult(Q, k), overwriting the public key point Q with [k1]Q, so the
+// retry uses [k2][k1]P for the mask while emitting C1 = [k2]G.
+func TestEncryptRetryAfterZeroMask(t *testing.T) {
+	r := rng(16)
+	d := randScalar(r)
+	priv := libKey(t, d)
+	pub := ScalarBaseMult(d)
+	msg := []byte{0x5a}
+	var k1 *big.Int
+	for {
+		k1 = randScalar(r)
+		if allZero(MaskT(pub, k1, len(msg))) {
+			break
+		}
+	}
+	if _, _, _, ok := EncryptWithK(pub, k1, msg); ok {
+		t.Fatal("model must refuse k with all-zero mask")
+	}
+	var k2 *big.Int
+	for {
+		k2 = randScalar(r)
+		k12 := new(big.Int).Mul(k1, k2)
+		if !allZero(MaskT(pub, k2, len(msg))) && !allZero(MaskT(pub, k12.Mod(k12, N), len(msg))) {
+			break
+		}
+	}
+	for _, l := range layouts {
+		ct, err := sm2.Encrypt(bytes.NewReader(append(b32(k1), b32(k2)...)), &priv.PublicKey, msg, l.enc)
+		if err != nil {
+			t.Fatal(err)
+		}
+		c1, c2, c3, _ := EncryptWithK(pub, k2, msg)
+		want := l.marshal(c1, c2, c3[:])
+		if bytes.Equal(ct, want) {
+			continue // library behaves per the standard
+		}
+		// Reproduce the defective output exactly: mask and C3 from [k1 k2]P.
+		s := ScalarMult(new(big.Int).Mul(k1, k2), pub)
+		bad2 := xor(msg, MaskT(pub, new(big.Int).Mul(k1, k2), len(msg)))
+		bad3 := DigestE([32]byte(b32(s.X)), append(append([]byte{}, msg...), b32(s.Y)...)) // SM3(x||M||y)
+		_, lerr := priv.Decrypt(nil, ct, l.dec)
+		_, mok := l.modelDecrypt(d, ct)
+		if bytes.Equal(ct, l.marshal(c1, bad2, bad3[:])) && lerr != nil && !mok {
+			t.Logf("NEW DEFECT (c): %s: after an A5 retry the library emits C1=[k2]G with C2,C3 derived from [k1*k2]P; nobody can decrypt (library: %v)", l.name, lerr)
+		} else {
+			t.Errorf("%s: unexplained ciphertext %x, model %x", l.name, ct, want)
 		}
 	}
 }
@@ -649,9 +731,6 @@ func TestAllZeroC2(t *testing.T) {
 			t.Fatal("model must decrypt all-zero C2")
 		}
 		for _, l := range layouts {
-			if l.compressed && n <= 32 {
-				continue // separate finding, see TestLibraryEncryptModelDecrypt
-			}
 			if _, err := priv.Decrypt(nil, l.marshal(c1, c2, c3[:]), l.dec); err != nil {
 				t.Logf("KNOWN DEFECT (a): %s len %d: library refuses valid ciphertext with all-zero C2: %v", l.name, n, err)
 			}
@@ -665,7 +744,11 @@ func TestDecryptRejectionVsLibrary(t *testing.T) {
 	priv := libKey(t, d)
 	pub := ScalarBaseMult(d)
 	n := 0
-	for _, mlen := range []int{33, 40, 130} {
+	mlens := []int{1, 2, 33, 40, 130}
+	if testing.Short() {
+		mlens = []int{2, 40}
+	}
+	for _, mlen := range mlens {
 		msg := randBytes(r, mlen)
 		c1, c2, c3, _ := EncryptWithK(pub, randScalar(r), msg)
 		for _, l := range layouts {
@@ -706,6 +789,48 @@ func TestDecryptRejectionVsLibrary(t *testing.T) {
 		}
 	}
 	t.Logf("%d ciphertexts compared", n)
+}
+
+// A ciphertext with empty C2 and C3 = SM3(x2||y2): the mask t is the empty
+// string, which is vacuously all zero, so the model refuses it.
+func TestEmptyC2(t *testing.T) {
+	r := rng(17)
+	d := randScalar(r)
+	priv := libKey(t, d)
+	pub := ScalarBaseMult(d)
+	k := randScalar(r)
+	s := ScalarMult(k, pub)
+	c3 := DigestE([32]byte(b32(s.X)), b32(s.Y))
+	for _, l := range layouts {
+		ct := l.marshal(ScalarBaseMult(k), nil, c3[:])
+		_, mok := l.modelDecrypt(d, ct)
+		m, err := priv.Decrypt(nil, ct, l.dec)
+		if mok {
+			t.Errorf("%s: model accepts empty C2", l.name)
+		}
+		if err == nil {
+			t.Errorf("%s: library accepts a ciphertext with empty C2 (plaintext %x), model refuses", l.name, m)
+		}
+	}
+}
+
+// d = n-1 has no inverse of 1+d: the model refuses; the library must return
+// an error on the FIRST call (the second call is known defect (b), not run).
+func TestSignWithOrderMinusOne(t *testing.T) {
+	d := nMinus(1)
+	e := DigestE([32]byte{}, nil)
+	if _, _, ok := SignWithK(d, big.NewInt(12345), e[:]); ok {
+		t.Fatal("model signs with d = n-1")
+	}
+	if _, err := sm2.NewPrivateKeyFromInt(d); err == nil {
+		t.Error("library accepts d = n-1 in NewPrivateKey")
+	}
+	pub := ScalarBaseMult(d)
+	priv := new(sm2.PrivateKey)
+	priv.Curve, priv.D, priv.X, priv.Y = sm2.P256(), d, pub.X, pub.Y
+	if _, err := sm2.SignASN1(constReader(0x11), priv, e[:], nil); err == nil {
+		t.Error("library signs with d = n-1")
+	}
 }
 
 // Fixed ciphertexts quoted in /repo/sm2/example_test.go.
